@@ -47,7 +47,16 @@ import numbers
 
 import toolz
 
-from dask._task_spec import Alias, DataNode, GraphNode, NestedContainer, Task, TaskRef, convert_legacy_graph
+from dask._task_spec import (
+    Alias,
+    DataNode,
+    GraphNode,
+    NestedContainer,
+    Task,
+    TaskRef,
+    _execute_subgraph,
+    convert_legacy_graph,
+)
 
 
 def _norm_key(key):
@@ -162,7 +171,14 @@ def _records(key, node):
         resolved = fl.resolve(node, deps)
         return [(out_key, toolz.identity, (resolved,), {}, sorted(deps)), *fl.extra]
     if isinstance(node, Task):
-        args = tuple(fl.resolve(a, deps) for a in node.args)
+        if node.func is _execute_subgraph and len(node.args) >= 3:
+            # A fused task: (inner graph, output key, input labels, *inputs).  The
+            # inner graph is self-contained -- its tasks refer to its own keys and
+            # to the input labels -- so it is passed whole; lifting its tasks out
+            # would leave bare values where execute_graph expects nodes.
+            args = tuple(node.args[:3]) + tuple(fl.resolve(a, deps) for a in node.args[3:])
+        else:
+            args = tuple(fl.resolve(a, deps) for a in node.args)
         kwargs = {k: fl.resolve(v, deps) for k, v in (node.kwargs or {}).items()}
         return [(out_key, node.func, args, kwargs, sorted(deps)), *fl.extra]
     if isinstance(node, GraphNode):
